@@ -388,7 +388,12 @@ macro_rules! json_ops {
                 Some(match serde_json::to_string(&v) {
                     Ok(s) => {
                         let inner: String = serde_json::from_str(&s).expect("json string");
-                        ok(r_txt(&inner))
+                        // the text the serializer wrote, and what it deserializes to
+                        let back = match serde_json::from_str::<$ty>(&s) {
+                            Ok(v2) => ok($enc(v2)),
+                            Err(_) => json!([1, 0]),
+                        };
+                        ok(json!([r_txt(&inner), back]))
                     }
                     Err(_) => json!([1, 0]),
                 })
